@@ -44,12 +44,12 @@ impl BoardSpec {
     }
 }
 
-/// Explicit replay scenario: a key seed and a pair of boards.
+/// Explicit replay scenario: a key seed and a short *sequence* of boards hashed in this
+/// order with one key table (the order matters if the hash function keeps state).
 #[derive(Clone, Debug)]
 pub struct PairScenario {
     pub key_seed: u64,
-    pub a: BoardSpec,
-    pub b: BoardSpec,
+    pub boards: Vec<BoardSpec>,
 }
 
 fn hash_under(key_seed: u64, boards: &[Board]) -> (Vec<u64>, u64) {
@@ -68,16 +68,27 @@ fn hash_under(key_seed: u64, boards: &[Board]) -> (Vec<u64>, u64) {
 }
 
 pub fn replay_pair(sc: &PairScenario) -> Vec<(String, String, u64)> {
-    let (Some((ba, pa)), Some((bb, pb))) = (sc.a.build(), sc.b.build()) else { return vec![] };
-    let (hs, lh) = hash_under(sc.key_seed, &[ba, bb]);
-    let same_pos = pa.key() == pb.key();
-    if same_pos && hs[0] != hs[1] {
-        return vec![("same_position_two_hashes".into(), format!("{:?} and {:?} are the same position but hash to {:016x} and {:016x}", sc.a, sc.b, hs[0], hs[1]), lh)];
+    let built: Vec<(Board, Pos)> = match sc.boards.iter().map(|b| b.build()).collect::<Option<Vec<_>>>() {
+        Some(v) => v,
+        None => return vec![],
+    };
+    let boards: Vec<Board> = built.iter().map(|x| x.0).collect();
+    let (hs, lh) = hash_under(sc.key_seed, &boards);
+    // every class that shows, first instance each (which one shows first may differ from
+    // the batch, where thousands of other boards were hashed in between)
+    let mut out: Vec<(String, String, u64)> = vec![];
+    for i in 0..built.len() {
+        for k in 0..i {
+            let same_pos = built[k].1.key() == built[i].1.key();
+            if same_pos && hs[k] != hs[i] && !out.iter().any(|o| o.0 == "same_position_two_hashes") {
+                out.push(("same_position_two_hashes".into(), format!("{:?} and {:?} are the same position but hash to {:016x} and {:016x}", sc.boards[k], sc.boards[i], hs[k], hs[i]), lh));
+            }
+            if !same_pos && hs[k] == hs[i] && !out.iter().any(|o| o.0 == "two_positions_one_hash") {
+                out.push(("two_positions_one_hash".into(), format!("{:?} and {:?} differ but both hash to {:016x}", sc.boards[k], sc.boards[i], hs[i]), lh));
+            }
+        }
     }
-    if !same_pos && hs[0] == hs[1] {
-        return vec![("two_positions_one_hash".into(), format!("{:?} and {:?} differ but both hash to {:016x}", sc.a, sc.b, hs[0]), lh)];
-    }
-    vec![]
+    out
 }
 
 /// Single-component neighbours of a position that are themselves valid positions, plus
@@ -266,7 +277,7 @@ pub fn run_sim(seed: u64) -> (Judged, Value) {
                     transpositions += 1;
                 }
                 if hs[k] != hs[i] && j.violations.is_empty() {
-                    let sc = PairScenario { key_seed, a: specs[k].clone(), b: specs[i].clone() };
+                    let sc = seq_scenario(key_seed, &specs, k, i);
                     j.violations.push(("same_position_two_hashes".into(), format!("[{}] {:?} vs [{}] {:?}: {:016x} / {:016x}", tags[k], specs[k], tags[i], specs[i], hs[k], hs[i]), sc, lh));
                 }
             }
@@ -278,7 +289,7 @@ pub fn run_sim(seed: u64) -> (Judged, Value) {
         match by_hash.get(&hs[i]) {
             Some(&k) => {
                 if keys[k] != keys[i] && j.violations.is_empty() {
-                    let sc = PairScenario { key_seed, a: specs[k].clone(), b: specs[i].clone() };
+                    let sc = seq_scenario(key_seed, &specs, k, i);
                     j.violations.push(("two_positions_one_hash".into(), format!("[{}] {:?} vs [{}] {:?}: both {:016x}", tags[k], specs[k], tags[i], specs[i], hs[i]), sc, lh));
                 }
             }
@@ -293,14 +304,27 @@ pub fn run_sim(seed: u64) -> (Judged, Value) {
     (j, sample)
 }
 
+/// The two offending boards, each preceded by the board that was hashed just before it.
+fn seq_scenario(key_seed: u64, specs: &[BoardSpec], k: usize, i: usize) -> PairScenario {
+    // a window of the boards hashed before the later one: if the hash function keeps
+    // state, what it returned for board i depends on them (the shrinker drops the rest)
+    let mut idx = vec![];
+    let lo = i.saturating_sub(40);
+    for x in [k.wrapping_sub(1), k].into_iter().chain(lo..=i) {
+        if x < specs.len() && !idx.contains(&x) {
+            idx.push(x);
+        }
+    }
+    PairScenario { key_seed, boards: idx.into_iter().map(|x| specs[x].clone()).collect() }
+}
+
 fn pair_to_json(s: &PairScenario) -> Value {
-    json!({"key_seed": s.key_seed, "a": s.a.to_json(), "b": s.b.to_json()})
+    json!({"key_seed": s.key_seed, "boards": s.boards.iter().map(|b| b.to_json()).collect::<Vec<_>>()})
 }
 fn pair_from_json(v: &Value) -> Option<PairScenario> {
     Some(PairScenario {
         key_seed: v["key_seed"].as_u64().unwrap_or(0),
-        a: BoardSpec::from_json(&v["a"])?,
-        b: BoardSpec::from_json(&v["b"])?,
+        boards: v["boards"].as_array()?.iter().filter_map(BoardSpec::from_json).collect(),
     })
 }
 
@@ -323,33 +347,30 @@ pub fn replay_value(v: &Value) -> Vec<Violation> {
 pub fn shrink_value(v: &Value) -> Vec<Value> {
     let Some(sc) = pair_from_json(v) else { return vec![] };
     let mut out = vec![];
-    // re-root a path board at its FEN (drops the path)
-    for which in 0..2 {
-        let spec = if which == 0 { &sc.a } else { &sc.b };
+    // fewer boards
+    if sc.boards.len() > 2 {
+        for i in 0..sc.boards.len() {
+            let mut n = sc.clone();
+            n.boards.remove(i);
+            out.push(pair_to_json(&n));
+        }
+    }
+    // re-root a path board at its FEN (drops the path), or one ply later
+    for which in 0..sc.boards.len() {
+        let spec = &sc.boards[which];
         if !spec.moves.is_empty() {
             if let Some((_, p)) = spec.build() {
                 let mut n = sc.clone();
-                let s = BoardSpec { fen: p.to_fen(), moves: vec![] };
-                if which == 0 {
-                    n.a = s;
-                } else {
-                    n.b = s;
-                }
+                n.boards[which] = BoardSpec { fen: p.to_fen(), moves: vec![] };
                 out.push(pair_to_json(&n));
             }
-            // shorter path: drop the first move by re-rooting one ply later
             if let Ok(p0) = Pos::from_fen(&spec.fen) {
                 if let Some(m) = p0.find_uci(&spec.moves[0]) {
                     let mut p1 = p0.make(&m);
                     p1.halfmove = p1.halfmove.min(99);
                     p1.fullmove = p1.fullmove.clamp(1, 200);
                     let mut n = sc.clone();
-                    let s = BoardSpec { fen: p1.to_fen(), moves: spec.moves[1..].to_vec() };
-                    if which == 0 {
-                        n.a = s;
-                    } else {
-                        n.b = s;
-                    }
+                    n.boards[which] = BoardSpec { fen: p1.to_fen(), moves: spec.moves[1..].to_vec() };
                     out.push(pair_to_json(&n));
                 }
             }
